@@ -36,6 +36,8 @@ def run(ctx):
                 "predicted": "reject leaves offsets, stack and later output unchanged"})
     n = 150 if ctx.quick else 4000
     s2 = ctx.tv("enc", "Trace_Encoder", {"seed": ctx.seed, "n": n, "mode": "c06"}, consts={"MaxD": 10000})
+    # depth at most 10000, reached by tokens, by a raw value, or split between both
+    ctx.tv("enc", "Trace_Encoder", {"mode": "deep", "stride": 9 if ctx.quick else 2, "prop": "C06"}, consts={"MaxD": 10000})
     if s2.get("rejected_calls", 0) == 0:
         from common import MachineryError
         raise MachineryError("driver produced no rejected calls: vacuous")
